@@ -248,15 +248,34 @@ def stepping_rules(OB, prog, eff, prim):
         # the 8-byte pass may sit behind a test of the target's word size (`size_of::<usize>() > 4`) and nothing else
         narrow = [(p_, v) for p_, v in seq if v <= 4]
         chain_ok = all(parent.pos_dominates(narrow[i][0], narrow[i + 1][0]) for i in range(len(narrow) - 1))
+        def word_test_holds_on_64bit(r):
+            """r compares size_of::<usize>() with a constant: the comparison must be TRUE for 8 (the pass runs where the word is 8 bytes)
+            and FALSE for 4 (found by negating `if size_of::<usize>() > 4`: the 8-byte pass then never ran on a 64-bit target)"""
+            a_, c_ = unref(r[2]), unref(r[3])
+            op = r[1]
+            if a_[0] == 'const' and is_call(c_, "size_of"):
+                a_, c_ = c_, a_
+                op = {"Lt": "Gt", "Gt": "Lt", "Le": "Ge", "Ge": "Le", "Eq": "Eq", "Ne": "Ne"}[op]
+            if not (is_call(a_, "size_of") and c_[0] == 'const' and isinstance(c_[1], int)):
+                return None
+            f = {"Gt": lambda x, k: x > k, "Ge": lambda x, k: x >= k, "Lt": lambda x, k: x < k, "Le": lambda x, k: x <= k,
+                 "Eq": lambda x, k: x == k, "Ne": lambda x, k: x != k}[op]
+            return f(8, c_[1]) and not f(4, c_[1])
+        word_dir_ok = True
         for p_, v in seq:
             if v > 4:
+                for r in parent.facts_at(p_):
+                    if r[0] == 'cmp' and any(is_call(unref(x), "size_of") for x in (r[2], r[3])) and any(unref(x)[0] == 'const' for x in (r[2], r[3])):
+                        if word_test_holds_on_64bit(r) is False:
+                            word_dir_ok = False
                 guards = [r for r in parent.facts_at(p_) if not (r[0] == 'cmp' and any(is_call(unref(x), "size_of") for x in (r[2], r[3])) and
                                                                   any(unref(x)[0] == 'const' for x in (r[2], r[3])))]
                 chain_ok = chain_ok and not guards and bool(narrow) and narrow[0][0][0] in parent.reachable(p_[0]) and p_[0] not in parent.reachable(narrow[0][0][0])
         exits_ok = bool(seq) and all(parent.node_dominates(seq[-1][0][0], x) for x in parent.exits())
-        order_ok = [v for _p, v in seq] == [8, 4, 2, 1] and chain_ok and exits_ok
+        order_ok = [v for _p, v in seq] == [8, 4, 2, 1] and chain_ok and exits_ok and word_dir_ok
         OB.ob("R6.4.descending_widths", parent.key, order_ok, parent.where(),
-               f"widths tried in order {[v for _p, v in seq]} (must be 8, 4, 2, 1), each pass unconditional: dominates the next [{chain_ok}], the last dominates every exit [{exits_ok}]")
+               f"widths tried in order {[v for _p, v in seq]} (must be 8, 4, 2, 1), each pass unconditional: dominates the next [{chain_ok}], the last dominates every exit [{exits_ok}]; "
+               f"the word-size test in front of the 8-byte pass holds for an 8-byte word and not for a 4-byte one [{word_dir_ok}]")
         rts = parent.return_terms()
         # R6.5 routing
         routers = [(b, c) for b in prog.bodies for c in b.calls() if c.target == parent.id]
